@@ -143,12 +143,23 @@ CLAIMS = {
        "object counters, debug-malloc report).",
   note="Heap balance relies on --enable-debug's allocation tracking and the shim's MPI object counters.",
   tech="TLA+ spec Files.tla: TLC exhaustive check + generated open/close/abort behaviours replayed + TLC trace validation incl. resource balances"),
+ "C18": dict(
+  spec="Limits.tla + Wide.tla (exact arithmetic on 4 limbs) + Limits_MC.tla + Trace_Limits.tla",
+  text="Limits.tla states the per-format size rules (per-variable limits 2^31-4 / 2^32-4 with the last-variable exceptions, begins below "
+       "2^31 in CDF-1, every first-record byte below 2^63, def_dim limits) and the byte offset of every element in exact wide arithmetic. "
+       "TLC enumerates all 3330 schemas of 1-3 fixed/record variables over the size classes just below / at / just above every threshold "
+       "and checks the rules' consistency (an outright accepted schema has a layout meeting every layout requirement, a rejected one has "
+       "none); each schema is replayed on the library and TLC validates the def_dim/def_var/enddef codes and the reported layout; for "
+       "accepted schemas elements and 2x6 blocks on both sides of 2^31 and 2^32 (bytes and element indices), first/last elements and "
+       "records 0/1 are written into a sparse file: after every put the non-zero bytes of the file (found with SEEK_DATA) must be exactly "
+       "the bytes the specification places at the offsets it computes, and every get must return those bytes (zeros elsewhere).",
+  note="Header sizes assumed within [32, 4096] bytes; elements beyond 2 TiB not touched; one process.",
+  tech="TLA+ spec Limits.tla (wide arithmetic): TLC exhaustive enumeration of threshold schemas + replay + TLC trace validation of return codes, layout and sparse-file byte positions"),
 }
 
 NA = {
  "C04": "check not built yet: the encoder for specification-valid foreign layouts exists (harness/cdfdecode.py encode) but no spec-bound check is registered",
  "C12": "check not built yet (planned: Data/MP behaviours replayed with the burst-buffer driver, Trace_MP visibility rules)",
- "C18": "check not built yet (planned: Limits spec of the per-format size rules; needs sparse multi-GiB files)",
  "C19": "memory safety is not a property of the abstract state a TLA+ specification describes; planned as the sanitizer build running the behaviours generated for the other properties plus mutated files (see DESIGN.md section 9)",
  "C20": "check not built yet (planned: utilities run on files produced by File behaviours, outputs compared with the model)",
 }
